@@ -76,6 +76,7 @@ type c04spec struct {
 	ctype     string // handshake connection type
 	cred      int
 	victimTid bool
+	tid       string        // explicit tunnel id (overrides victimTid)
 	fault     int           // 0 = none, else fail the k-th store op after the request is sent
 	wfault    int           // 0 = none, else fail the k-th store WRITE after the request is sent
 	overlap   bool          // a change of the mapping's state is in flight while this request is: neither outcome is required
@@ -144,6 +145,7 @@ func init() {
 			"one state of M {active, revoked, expired by clock, inactive, deleted} and 1-2 probe TunnelOpen requests over fresh connections: identity {L,T,S,U(no handshake / challenge pending / failed response)} x credential {id only, id+right secret, id+wrong secret, secret without id, other mapping's id, other mapping's id+secret, other id+M's secret, unknown id, resume-token garbage, nothing} x tunnel id {victim's, fresh} x handshake type {tunnel, control}, " +
 			"optionally with a store failure or a store stall (one storage operation taking 1-25 s of simulated time) injected during validation, racing the legitimate target's open, or as a burst: 2-3 probes plus one more legitimate listener open, each for its own fresh tunnel id, whose TunnelOpen requests are in flight at the same time and interleave at every storage operation and statement of the validation path. " +
 			"In a third of the runs with a changed mapping the change is not applied between requests but while one more legitimate open of M is being processed (fault-free interleaving, or with that open's write of M's record failing, or behind a stalled store operation), followed by a canary open once both are over; the legitimate source open of phase 1 may also run behind a stalled store operation so that its background work overlaps the next requests. " +
+			"An expired mapping is probed 7 ms to 2.3 s after its ExpiresAt (whose sub-second phase is drawn; never at the instant itself), the first request after any change being, in 3 of 4 runs, an otherwise entitled canary open of M (listener by id, listener or target by secret). In a third of the bursts the two tenants' source opens carry the same fresh tunnel id (both in flight before either registers a bridge), after which the legitimate target joins and both ends stream. " +
 			"At the end every TunnelOpenRequest command the server sent on the clients' control connections is checked: addressee is the target of the named mapping, the named tunnel was granted for that mapping, the secret is that mapping's. Each request is judged by an entitlement function written from the property text. " +
 			"Non-trivial: at least one TunnelOpen that the text does NOT entitle was delivered to the real dispatcher and its outcome (ack / close / silence, bridge membership, bytes readable) observed; distinct = distinct (identity, credential, mapping state, tunnel state) cells and schedule hashes.",
 		Real: []string{"internal/protocol/session SessionManager.handleTunnelOpen / handleExistingBridge / handleSourceBridge / handleTargetBridge / handleCrossNodeTargetConnection / startSourceBridge / runBridgeLifecycle, handshake path, BaseAdapter read loop",
@@ -193,6 +195,15 @@ func c04Run(w *simrt.World, tier string) {
 		nprobe = 2 + c.Intn(2, "burst.nprobe")
 	}
 	burstSameID := c.Chance(1, 2, "burst.id-only")
+	// same-id burst: the two tenants' source opens of the burst carry the SAME (fresh) tunnel id, so both are in
+	// flight before either has registered a bridge; the legitimate target then joins and both ends stream
+	burstSameTid := c.Chance(1, 3, "burst.same-tunnel-id")
+	// expiry: how long after M's ExpiresAt the first request arrives (never at the instant itself), and the
+	// sub-second phase of ExpiresAt
+	expAfter := []time.Duration{1050 * time.Millisecond, 201 * time.Millisecond, 7 * time.Millisecond, 60 * time.Millisecond, 650 * time.Millisecond, 2300 * time.Millisecond, 930 * time.Millisecond}[c.Intn(7, "expiry.after")]
+	expPhase := time.Duration(c.Intn(20, "expiry.phase")) * 50 * time.Millisecond
+	// canary: the first request after the change of M's state is an otherwise entitled open of M
+	canary := c.Intn(4, "canary") // 0 none | L id only | L id+secret | T id+secret
 	// late change: the change of M's state is not applied between requests but while a legitimate open of M is
 	// in flight (optionally with one of that open's storage writes failing); a canary open follows once both are over
 	lateChange := mstate != 0 && c.Chance(1, 3, "mapping.change-races-open")
@@ -382,12 +393,13 @@ func c04Run(w *simrt.World, tier string) {
 				return err
 			}
 			cp := *pm
-			exp := time.Now().Add(3 * time.Second)
+			exp := time.Now().Add(3*time.Second + expPhase)
 			cp.ExpiresAt = &exp
 			if err := r.node.Cloud.UpdatePortMapping(&cp); err != nil {
 				return err
 			}
-			w.Sleep(4*time.Second + 50*time.Millisecond)
+			w.Sleep(3*time.Second + expPhase + expAfter)
+			r.logf("M's ExpiresAt (%v after the run's start) passed %v ago", (w.Now() - expAfter).Round(time.Millisecond), expAfter)
 		case "inactive":
 			return r.node.Cloud.UpdatePortMappingStatus(r.M.id, models.MappingStatusInactive)
 		case "deleted":
@@ -438,6 +450,9 @@ func c04Run(w *simrt.World, tier string) {
 	if lateChange {
 		// canary: the change was acknowledged to its caller, nothing of the raced open is in flight any more
 		r.open(c04spec{ident: c04L, ctype: "tunnel", cred: lateCred}, "Lcanary", false)
+	} else if mstate != 0 && canary != 0 {
+		who := []int{c04L, c04L, c04L, c04T}[canary]
+		r.open(c04spec{ident: who, ctype: "tunnel", cred: []int{0, 0, 1, 1}[canary]}, c04identName[who]+"canary", false)
 	}
 
 	// ---- phase 3: probes -----------------------------------------------------------
@@ -445,11 +460,17 @@ func c04Run(w *simrt.World, tier string) {
 		w.Probe("burst")
 		var pcs []*c04conn
 		// connections are set up and authenticated one after the other; only the TunnelOpen requests overlap
-		if pc := r.prep(c04spec{ident: c04L, ctype: "tunnel", cred: 0}, "Lburst", true); pc != nil {
-			pcs = append(pcs, pc)
+		shared := ""
+		if burstSameTid {
+			w.Probe("burst.same-tunnel-id")
+			shared = "tcp-tunnel-1700000000999-7788"
+		}
+		lb := r.prep(c04spec{ident: c04L, ctype: "tunnel", cred: 0, tid: shared}, "Lburst", true)
+		if lb != nil {
+			pcs = append(pcs, lb)
 		}
 		// the other tenant is busy too: S opens a tunnel of its own mapping
-		if pc := r.prep(c04spec{ident: c04S, ctype: "tunnel", cred: 4}, "Sburst", true); pc != nil {
+		if pc := r.prep(c04spec{ident: c04S, ctype: "tunnel", cred: 4, tid: shared}, "Sburst", true); pc != nil {
 			pcs = append(pcs, pc)
 		}
 		for i, sp := range specs {
@@ -466,6 +487,14 @@ func c04Run(w *simrt.World, tier string) {
 			t.Wait()
 		}
 		specs = nil
+		if burstSameTid && lb != nil && lb.ackOK {
+			// the legitimate pair uses the tunnel it believes it has: the listener streams, the target joins and streams
+			r.stream(lb, 'L')
+			if tgt := r.open(c04spec{ident: c04T, ctype: "tunnel", cred: 1, tid: shared}, "Tshared", true); tgt != nil && tgt.ackOK {
+				r.stream(tgt, 'T')
+			}
+			w.Sleep(200 * time.Millisecond)
+		}
 	}
 	for i, sp := range specs {
 		name := fmt.Sprintf("probe%d-%s", i, c04identName[sp.ident])
@@ -821,7 +850,9 @@ func (r *c04run) prep(sp c04spec, name string, legit bool) *c04conn {
 
 	// ---- the request and the tunnel state it meets -------------------------------
 	tid := r.tidV
-	if !sp.victimTid {
+	if sp.tid != "" {
+		tid = sp.tid
+	} else if !sp.victimTid {
 		tid = fmt.Sprintf("tcp-tunnel-fresh-%d", r.nconn)
 	}
 	pc.tid = tid
